@@ -24,6 +24,12 @@ CHECKS["C19"] = dict(
     technique="TLA+ spec + TLC exhaustive model check (ideal and deviation configs); behaviour replay through opaque Future/Stream/Sink; trace validation by TLC",
     design="DESIGN.md §5 C19, §6 F1")
 
+CHECKS["C14"] = dict(
+    text="spec/CString.tla states the buffer discipline (prefix before first NUL + exactly one NUL, one heap block of exactly that size per string, content equality); TLC checks WellFormed/OneBufferEach in every state while enumerating the complete bounded input space (all words of <=3 (thorough 4) characters over {NUL,'a',U+E9,U+20AC,U+10348}) x the three constructors and all operation sequences over representative inputs; every behaviour is replayed on the real ReprCString/ReprCStr with the ledger allocator reporting the block size behind the pointer, leaks, mismatched frees and guard damage; random traces validated by TLC.",
+    note="Trusted: TLC, rt/src/cstrad.rs, the ledger allocator (block sizes, guard bytes). Found and fixed F3 (known_findings.json).",
+    technique="TLA+ spec; TLC enumeration of the bounded input space with invariants; behaviour replay against the implementation with allocator ledger; trace validation by TLC",
+    design="DESIGN.md §5 C14, §6 F3")
+
 NOT_YET = {}
 
 def main():
